@@ -142,6 +142,9 @@ impl Prop for C06 {
 			"apache-avro as second implementation is exercised by the crate's own test-suite only on two schemas; it is not linked into this harness".into(),
 		]
 	}
+	fn expected_probes(&self) -> Vec<&'static str> {
+		vec!["direction_a_files", "direction_b_files", "direction_b_absent_codec_key", "direction_b_metadata_negative_count_block", "direction_b_metadata_split"]
+	}
 	fn budget(&self, tier: Tier) -> (u64, u64) {
 		match tier {
 			Tier::Quick => (40_000, 60),
